@@ -10,7 +10,7 @@ def components():
 
 
 def oracles_():
-    return [comps_uord.UordForwardOracle(), oracles.Diff(), oracles.DiffUord()]
+    return [comps_uord.UordForwardOracle(), oracles.DiffFwd(), oracles.DiffUordFwd()]
 
 
 MANIFEST = {
